@@ -1,5 +1,7 @@
 package simworld
 
+import "time"
+
 // Stepper runs a function on its own goroutine and lets the harness advance it
 // from one observable operation (gate) to the next. Exactly one goroutine runs
 // at a time: either the harness or the stepped function.
@@ -8,7 +10,12 @@ type Stepper struct {
 	done     chan struct{}
 	cur      *gateReq
 	Finished bool
+	Hung     bool // the stepped function neither reached a gate nor ended within the watchdog's (real) time: it is blocked for good
 }
+
+// HangTimeout is the real time after which a segment that neither ends nor reaches an API call counts as hung.
+// A segment is controller code between two API calls (microseconds); nothing in it sleeps.
+var HangTimeout = 20 * time.Second
 
 type gateReq struct {
 	call   Call
@@ -34,6 +41,10 @@ func (s *Stepper) wait() bool {
 	case <-s.done:
 		s.cur = nil
 		s.Finished = true
+		return false
+	case <-time.After(HangTimeout):
+		s.cur = nil
+		s.Finished, s.Hung = true, true
 		return false
 	}
 }
